@@ -220,6 +220,10 @@ def explore(make_run, max_paths=5000):
         stats["solver_calls"] += path.solver_calls
         if aborted:
             stats["aborted"] += 1
+            # a requirement that is false outright ends its path; the obligation stays
+            dead = [o for o in path.obligations if o[1] is not None and z3.is_false(o[2])]
+            if dead:
+                stats.setdefault("orphans", []).append((path, dead))
             continue
         if not path.feasible():
             stats["aborted"] += 1
